@@ -178,9 +178,31 @@ CHECKS.update({
         design="8 C01"),
 })
 
+CHECKS.update({
+    "C02": dict(
+        text="Layer 1 (contract proof on the real Django visitor, per operator / function handler per path): the expression term returned is "
+             "the entry of the Django translation table (lookup class per comparator, IsNull for null tests, operand order, StrIndex - 1, "
+             "Substr(.., i + 1, n), Extract*/Trunc*, Lower/Upper/Trim/Length/Concat, Q composition), with Django calls as uninterpreted "
+             "constructors. Layer 2 (bounded, labelled, not counted): the real backend executed through Django on in-memory SQLite over the "
+             "adversarial value domain vs reference semantics.",
+        note="Which rows a Django expression selects is decided by Django's compiler and SQLite, outside any contract on repository code: bounded "
+             "only (94 filters x 150/1500 rows); mismatches recorded (LIKE case-insensitivity, Concat treats NULL as ''). The translation table is "
+             "mine (from the statement and Django's documentation). geo functions, lambdas, navigation paths are outside the fragment (C04 n/a).",
+        technique="contracts on the real Django visitor against a translation table (pyvc, external calls uninterpreted); bounded execution on SQLite",
+        design="0.3 / 8 C02"),
+    "C03": dict(
+        text="Layer 1 (contract proof on the real SQLAlchemy ORM and Core visitors, per operator / function handler per path): the expression "
+             "term returned is the entry of the SQLAlchemy translation table (Python operator per comparator / arithmetic operator, operand "
+             "order, column.contains/startswith/endswith, strpos - 1, substr(.., i + 1, n), extract(part, ..), cast, and_/or_/invert); ORM and "
+             "Core against the same table. Layer 2 (bounded, labelled, not counted): both backends executed on in-memory SQLite vs reference semantics.",
+        note="Which rows a SQLAlchemy expression selects is decided by SQLAlchemy's compiler and SQLite: bounded only; mismatches recorded (LIKE "
+             "case-insensitivity and wildcards, strpos/concat missing on SQLite, floor over NULL, true division). The ORM's foreign-key "
+             "substitution for relationship operands is tolerated (relationships are C04, n/a). Legacy Query entry style not exercised.",
+        technique="contracts on the real SQLAlchemy visitors against a translation table (pyvc, external calls uninterpreted); bounded execution on SQLite",
+        design="0.3 / 8 C03"),
+})
+
 NOT_APPLICABLE = {
-    "C02": "the rows a Django QuerySet returns are decided by Django's SQL compiler and SQLite, not by any function in /repo; no contract on repo code can express it (DESIGN section 9)",
-    "C03": "row semantics are decided by SQLAlchemy's compiler (operator rendering, contains escaping, boolean rendering) and SQLite (DESIGN section 9)",
     "C04": "join kind, join promotion under `or`, EXISTS correlation and many-to-many expansion are ORM-internal planning decisions (DESIGN section 9)",
     "C15": "filter()/join() composition, join detection and the func registry are SQLAlchemy/Django behaviour outside any repo function's contract (DESIGN section 9)",
 }
